@@ -9,30 +9,30 @@ open Bifrost Bifrost.Sig
 /-- At most one active listen call per peer and at most one attached session call per ordered
 pair of peers. -/
 theorem at_most_one_active (s : State) (h : Reachable s) : uniqueOk s = true := by
-  sorry
+  exact SigReg.uniqueOk_of_inv (SigReg.inv_of_reachable h)
 
 /-- A call that has been replaced by a newer one is awake: it will observe the replacement… -/
 theorem replaced_is_woken (s : State) (h : Reachable s) : replacedOk s = true := by
-  sorry
+  exact SigReg.replacedOk_of_inv (SigReg.inv_of_reachable h)
 
 /-- …and when its loop runs it returns with the replaced error (session). -/
 theorem replaced_session_errors (s : State) (c : SCall) (t : Sess)
     (hc : getSCall s c.id = some c) (ht : getSess s c.sess = some t)
     (hrep : c.attached s = false) :
     ∃ c', getSCall (sLoop s c.id) c.id = some c' ∧ c'.failing = true ∧ c'.outbox = c.outbox := by
-  sorry
+  exact SigReg.replaced_session_errors_aux s c t hc ht hrep
 
 /-- …(listen). -/
 theorem replaced_listen_errors (s : State) (l : LCall) (t : Tkr)
     (hl : getLCall s l.id = some l) (ht : getTkr s l.tkr = some t) (hrep : t.nonce ≠ l.myNonce) :
     ∃ s', lUsurped s l.id = some s' ∧ ∀ w n, lLoop s l.id w n = none := by
-  sorry
+  simp [lUsurped, lLoop, hl, ht, hrep]
 
 /-- Once all listen and session calls have ended, the relay keeps no per-peer or per-session state. -/
 theorem drained_is_empty (s : State) (h : Reachable s)
     (hs : ∀ c ∈ s.scalls, c.ended = true) (hl : ∀ l ∈ s.lcalls, l.ended = true) :
     s.peerMap = [] ∧ s.sessMap = [] := by
-  sorry
+  exact SigReg.drained_of_inv (SigReg.inv_of_reachable h) hs hl
 
 /-- Non-vacuity: a concrete history with usurpation that drains to empty. -/
 example : (run [.lreg 1 2, .init 2 1 2, .init 3 1 2, .loop 2, .end_ 2, .lreg 4 2, .lusurped 1, .lend 1,
